@@ -152,10 +152,26 @@ def run(ctx, rep):
                 return (v == "false") if is_pos(a) else None
             return None
 
+        latch_tests = {n for n in P.calls(r"Option::<T>::(is_some|is_none)$") if n[0] == inst.id
+                       and is_field(strip_ids(event_args(g, n)[0]), "error")}
+
         def step3(ms, pi, qi, learn, entry=entry):
             tested, latched_ok = ms
             if P.gnode(pi) == entry:
                 tested, latched_ok = False, False
+            if P.gnode(pi) in latch_tests:
+                # the latch is consulted here; when the product has already proved it empty the `latched` branch is pruned and nothing is
+                # learned on the remaining edge, so passing the test is the evidence - unless this edge learns that the latch is set
+                latched_ok = True
+                for o, v in norm_learn(learn):
+                    c = origin_call(o)
+                    if c == P.gnode(pi):
+                        nm = cpath(g.term(c)).split("::")[-1]
+                        if (nm == "is_some" and v == "true") or (nm == "is_none" and v == "false"):
+                            latched_ok = False
+                    pe = origin_place_expr(g, o)
+                    if pe is not None and is_field(strip_ids(pe), "error") and v == "Some":
+                        latched_ok = False
             for o, v in norm_learn(learn):
                 r = is_end_test(o, v)
                 if r is False:
